@@ -1114,6 +1114,11 @@ mod repr {
         if f.is_infinite() {
             return Inexact(f, Sign::Positive);
         }
+        // 2^DWORD_BITS is above every double word: the cast back below would saturate to
+        // DoubleWord::MAX and report the all-ones double word as exactly converted
+        if f == ((1 as DoubleWord) << (DoubleWord::BITS - 1)) as f32 * 2.0 {
+            return Inexact(f, Sign::Positive);
+        }
 
         let back = f as DoubleWord;
         match back.partial_cmp(&dword).unwrap() {
@@ -1126,6 +1131,11 @@ mod repr {
     fn to_f64_small(dword: DoubleWord) -> Approximation<f64, Sign> {
         const_assert!((DoubleWord::MAX as f64) < f64::MAX);
         let f = dword as f64;
+        // 2^DWORD_BITS is above every double word: the cast back below would saturate to
+        // DoubleWord::MAX and report the all-ones double word as exactly converted
+        if f == ((1 as DoubleWord) << (DoubleWord::BITS - 1)) as f64 * 2.0 {
+            return Inexact(f, Sign::Positive);
+        }
         let back = f as DoubleWord;
 
         match back.partial_cmp(&dword).unwrap() {
